@@ -1,9 +1,11 @@
 (** Diagnostics for C09: settable properties outside catalogue and oracle-only list; catalogue
-    entries for which the model finds a refused assignment that changes the element.
+    entries for which the model finds a refused assignment that changes the element (7002), and those after
+    whose refusal the property's own getter raises (7004; 7003 = not recorded).
     No obligations here. *)
 From V.lib Require Import Prelude PyFloat PyVal.
 From V.model Require Import SimpleTypeLib Props PropCatalogue.
 From V.gen Require Import GenC11 GenC09.
 Eval vm_compute in (7001%N, uncovered).
 Eval vm_compute in (7002%N, nonatomic_labels).
-Eval vm_compute in (7003%N, unknown_nonatomic).
+Eval vm_compute in (7003%N, unknown_breaking).
+Eval vm_compute in (7004%N, breaking_labels).
